@@ -2,6 +2,7 @@ package checks
 
 import (
 	"fmt"
+	formula "github.com/aundis/formula"
 	"github.com/ericlagergren/decimal"
 	"math"
 	"strings"
@@ -182,6 +183,31 @@ func judgeCmp(c CmpCase) *eng.Fail {
 	o, perr := evalSrc(src, cmpData)
 	if perr != nil {
 		return eng.F("C05/parse", "%s: %v", src, perr)
+	}
+	// the same comparisons by a runner whose previous equality tests failed (arrays and maps cannot be
+	// compared): the operators have no memory
+	if p2, err2 := cachedParse(src); err2 == nil {
+		r := formula.NewRunner()
+		r.SetThis(cmpData)
+		for _, bad := range []string{"[1] == [1]", "this != this", "[1] === ['1']", "[[1] < [2]]"} {
+			if pb, err := cachedParse(bad); err == nil {
+				safeResolve(r, bg, pb.Expression)
+			}
+		}
+		// (strict operators first: a successful loose comparison in between could hide a leftover)
+		strict := "[" + a.Expr + " === " + b.Expr + ", " + a.Expr + " !== " + b.Expr + "]"
+		if ps, err := cachedParse(strict); err == nil {
+			os := safeResolve(r, bg, ps.Expression)
+			if arr, _ := os.val.([]interface{}); !os.panicked && os.err == nil && len(arr) == 2 && o.err == nil {
+				if full, _ := o.val.([]interface{}); len(full) == 8 && (arr[0] != full[5] || arr[1] != full[7]) {
+					return eng.F("C05/history-dependent", "%s = %s on a runner whose previous comparisons of arrays failed, a fresh runner gives [%s, %s]", strict, show(os.val), show(full[5]), show(full[7]))
+				}
+			}
+		}
+		o2 := safeResolve(r, bg, p2.Expression)
+		if o2.panicked || (o2.err == nil) != (o.err == nil) || canonImpl(o2.val) != canonImpl(o.val) {
+			return eng.F("C05/history-dependent", "%s = %s on a fresh runner, but %s %v on a runner whose previous comparisons of arrays failed", src, canonImpl(o.val), canonImpl(o2.val), o2.err)
+		}
 	}
 	if o.panicked || o.err != nil {
 		return eng.F("C05/eval", "%s: %v %s", src, o.err, o.panicMsg)
